@@ -80,8 +80,8 @@ extern ssize_t mpt_queue_peek(MPT_STRUCT(decode_queue) *qu, size_t max, void *ds
 	qu->_state.curr += off;
 	len = qu->_state.data.len;
 	
-	/* complete message is waiting: state is unchanged, data may wrap */
-	if (ret < 0 && dst && qu->_state.data.msg >= 0) {
+	/* decoder had nothing to add (message waiting, data wraps, needs input): state is unchanged, decoded data may wrap */
+	if (ret < 0 && dst) {
 		if (len > max) {
 			len = max;
 		}
